@@ -2,6 +2,7 @@ package props
 
 import (
 	"fmt"
+	"go/token"
 	"go/types"
 	"strings"
 
@@ -16,7 +17,7 @@ func init() {
 		ID:    "C07",
 		Title: "Date ordering and arithmetic agree with the calendar",
 		Run:   runC07,
-		Explanation: "C07.order: Before, After and Equal are evaluated by predicate abstraction over all 27 orderings of (year, month, day): in every ordering exactly one of the three holds and it is the lexicographic order of the triple; side condition audited: the fields are used only in comparisons against the same field of the other operand; IsZero ⇔ all fields 0. With C01.enc (fields are monotone images of calendar components) lexicographic = chronological. " +
+		Explanation: "C07.order: Before, After and Equal are evaluated by predicate abstraction over all 27 orderings of (year, month, day): in every ordering exactly one of the three holds and it is the lexicographic order of the triple; side condition audited: the fields are used only in comparisons against the same field of the other operand; IsZero ⇔ all fields 0. The stored year is a strictly monotone image of the reported one: every read of the year (Year, Date, Time) adds 1 after widening, at a width above the field's 32 bits (obligation year wrap; on 32-bit targets int is that narrow: known finding). With that, lexicographic = chronological. " +
 			"C07.deleg: Time() = time.Date(y+1, m+1, d+1, 0,0,0,0, UTC); FromTime calls Date() on the parameter itself (not t.UTC()/In/Local) and maps IsZero to the zero date; Sub = d.Time().Sub(e.Time()) (not swapped); DaysBetween derives from the same difference divided by 24 hours; Add passes (years, months, days) to AddDate in the same positions; AddDuration → Time.Add; both wrap with FromTime; New = FromTime(time.Date(y, m, d, 0…, UTC)); Scan/Value delegate to FromTime/Time.",
 		NotDecided:  []string{"the calendar arithmetic itself (inside package time)", "float rounding in Hours()/24 and the range of time.Duration"},
 		Assumptions: []string{"time.Date/AddDate/Add/Sub implement the proleptic Gregorian calendar"},
@@ -96,6 +97,54 @@ func ruleC07Order(e *Env) {
 			}
 		}
 	}
+	// Before/After/Equal order the stored fields. That is the order of the calendar dates the accessors report only if
+	// stored ↦ reported is strictly monotone: year is read as field+1, which must not wrap — the addition is made
+	// after widening, at a width above the field's 32 bits.
+	{
+		var wraps []string
+		n := 0
+		for _, name := range []string{"Year", "Date", "Time"} {
+			fn := e.P.Method("date", "Date", name)
+			if fn == nil {
+				continue
+			}
+			for _, b := range fn.Blocks {
+				for _, in := range b.Instrs {
+					bo, ok := in.(*ssa.BinOp)
+					if !ok || bo.Op != token.ADD {
+						continue
+					}
+					isYear := func(v ssa.Value) bool {
+						v = flow.StripConv(v)
+						switch x := v.(type) {
+						case *ssa.UnOp:
+							fa, ok := x.X.(*ssa.FieldAddr)
+							return ok && x.Op == token.MUL && fieldNameOf(fa.X.Type(), fa.Field) == "year"
+						case *ssa.Field:
+							return fieldNameOf(x.X.Type(), x.Field) == "year"
+						}
+						return false
+					}
+					if !isYear(bo.X) {
+						continue
+					}
+					n++
+					if w, ok := pred.IntWidth(bo.Type()); ok && w <= 32 {
+						wraps = append(wraps, fmt.Sprintf("%s (%s)", name, e.posOf(bo)))
+					}
+				}
+			}
+		}
+		switch {
+		case n == 0:
+			e.S.Unk(rule, "date.Date", "year wrap", "no read of the year field of the form field + 1 found in Year / Date / Time", "")
+		case len(wraps) > 0:
+			e.S.Bad(rule, "date.Date", "year wrap", "the calendar year is read as year+1 computed in 32 bits, the width of the field ("+strings.Join(wraps, ", ")+"; int is that narrow on a 32-bit target): the date stored with year field MaxInt32 reports year −2147483648 (String, Time, Year) but Before/After rank it by the field, above every other date", "",
+				"a := date.New(math.MinInt32, 1, 1); b := date.New(2000, 1, 1): a.Time().Before(b.Time()) but a.After(b)")
+		default:
+			e.S.Ok(rule, "date.Date", "year wrap", fmt.Sprintf("%d reads of the year add 1 after widening: ordering by the stored fields is ordering by the reported dates", n), "")
+		}
+	}
 	// IsZero ⇔ all fields zero
 	if fn := e.Method(rule, "date", "Date", "IsZero"); fn != nil {
 		site := flow.FnName(fn)
@@ -116,6 +165,16 @@ func ruleC07Order(e *Env) {
 			}
 		}
 	}
+}
+
+func fieldNameOf(t types.Type, i int) string {
+	if p, ok := t.Underlying().(*types.Pointer); ok {
+		t = p.Elem()
+	}
+	if st, ok := t.Underlying().(*types.Struct); ok && i < st.NumFields() {
+		return st.Field(i).Name()
+	}
+	return ""
 }
 
 func ordSym(o int) string {
